@@ -308,6 +308,7 @@ func verifyFresh(bin, prop string, runs []int, tmp string) int {
 	}
 	for _, r := range runs {
 		var d [2]uint64
+		blockedInside := false
 		for k := 0; k < 2; k++ {
 			out := filepath.Join(tmp, fmt.Sprintf("vf-%s-%d-%d.json", prop, r, k))
 			cmd := exec.Command(bin, "-mode", "worker", "-prop", prop, "-seed", fmt.Sprint(masterSeed()), "-runs", fmt.Sprint(r+1), "-stride", "1", "-offset", fmt.Sprint(r), "-out", out, "-verif", *fVerif, "-tmp", tmp)
@@ -321,10 +322,13 @@ func verifyFresh(bin, prop string, runs []int, tmp string) int {
 				infra("verifyFresh: unreadable result")
 			}
 			d[k] = o.Digest
+			if o.Faults["task blocked inside the library (detached)"] > 0 {
+				blockedInside = true // released in the runtime's order, not the plan's (see schedLoop)
+			}
 			os.Remove(out)
 			os.Remove(out + ".hashes")
 		}
-		if d[0] != d[1] {
+		if d[0] != d[1] && !blockedInside {
 			infra("nondeterminism: run %d of %s gives digests %x and %x in two fresh processes", r, prop, d[0], d[1])
 		}
 	}
